@@ -158,25 +158,6 @@ def observe(cmd, args):
         if str(m2) != t or not (m2 == m) or hash(m2) != hash(m): return "str(m) does not reparse to an equal marker"
         if ev(m2, {"os_name": "b"}) != r: return "str(m) evaluates differently"
         return "ok"
-    if cmd == "law.k.pep508op":
-        # PEP 508: a comparison is a version comparison only if BOTH operands are valid versions (and the operator is a version
-        # operator), otherwise the Python string operator.  args: lhs, op, rhs (literals)
-        from packaging.version import Version, InvalidVersion
-        from packaging.specifiers import Specifier, InvalidSpecifier
-        l, op, r = args
-        m = mk('"%s" %s "%s"' % (l, op, r))
-        if m is None: return "ok"
-        got = ev(m, {})
-        def isv(x):
-            try: Version(x); return True
-            except InvalidVersion: return False
-        import operator
-        pyop = {"<": operator.lt, "<=": operator.le, "==": operator.eq, "!=": operator.ne, ">=": operator.ge, ">": operator.gt}.get(op)
-        if isv(l) and isv(r.strip()): return "ok"      # the specifier branch is the PEP 508 reading
-        if not isv(r.strip()) and pyop is not None:
-            want = "T" if pyop(l, r) else "F"
-            if got != want: return "%r %s %r: right operand is not a version, the string operator gives %s, evaluate() gives %s" % (l, op, r, want, got)
-        return "ok"
     if cmd == "law.k.extra":
         # a name compared with extra is PEP 503 / 685 normalised on both sides: lower-cased (str.lower, non-ASCII letters too) with runs of
         # '-', '_', '.' collapsed.  The expected answer comes from the harness's own folding (args[2]), not from canonicalize_name.
